@@ -162,19 +162,42 @@ var smallBufs = map[int][]byte{}
 // after 30 s is a call that blocks forever (free-running goroutines; the exhaustive, timer-free
 // decision of blocking is C08's, under the controlled scheduler).
 func decodeStream(stream []byte, rc readCfg, limit int) decodeOutcome {
+	cls := rc.Conc > 1
+	if hungClass[cls] {
+		hungSkipped++
+		return decodeOutcome{err: errSkippedHung}
+	}
 	ch := make(chan decodeOutcome, 1)
 	go func() { ch <- decodeStream1(stream, rc, limit) }()
 	select {
 	case r := <-ch:
 		return r
 	case <-time.After(watchdog):
-		return decodeOutcome{err: errBlocked}
 	}
+	// not back after 30 s: slow (e.g. busy allocating gigabytes) or blocked? give it two more minutes
+	select {
+	case r := <-ch:
+		slowCalls++
+		return r
+	case <-time.After(4 * watchdog):
+	}
+	hungCount[cls]++
+	if hungCount[cls] >= 7 {
+		// the finding has been confirmed (1 + 5 re-executions); every further hanging case would
+		// cost 150 s: stop running this class in this worker (counted in the evidence)
+		hungClass[cls] = true
+	}
+	return decodeOutcome{err: errBlocked}
 }
 
 var (
-	watchdog   = 30 * time.Second
-	errBlocked = errors.New("call does not return (blocked for 30 s on sub-millisecond work)")
+	watchdog       = 30 * time.Second
+	errBlocked     = errors.New("call does not return (blocked for 150 s on sub-millisecond work)")
+	errSkippedHung = errors.New("case skipped: this reader class already hangs in this worker")
+	hungCount      = map[bool]int{}
+	hungClass      = map[bool]bool{}
+	hungSkipped    int64
+	slowCalls      int64
 )
 
 func decodeStream1(stream []byte, rc readCfg, limit int) (res decodeOutcome) {
@@ -243,6 +266,9 @@ var c05Lenient = ref.Opts{NoVersion: true, NoReserved: true, NoDecodedMax: true,
 
 func c05Check(k *streamCase, base *baseFrame) *ev.Finding {
 	res := decodeStream(k.bytes(), k.Read, 1<<22)
+	if res.err == errSkippedHung {
+		return nil
+	}
 	if res.err == errBlocked {
 		return &ev.Finding{Sig: fmt.Sprintf("Reader blocks forever on a corrupted frame; conc>1=%v", k.Read.Conc > 1), What: fmt.Sprintf("base=%s mutation=%s", k.Base, k.Mut), Case: k.frozen()}
 	}
@@ -445,10 +471,6 @@ func c05Run(c *ev.Ctx) {
 				k := &streamCase{Fam: "mutant", Base: b.Name, Mut: desc, Read: rc, stream: m}
 				c.Eval(1)
 				c.Distinct(1)
-				res := decodeStream(m, rc, 1<<22)
-				if res.clean {
-					c.Add("accepted_by_reader", 1)
-				}
 				if f := c05Check(k, b); f != nil {
 					kk := k.frozen()
 					c.ConfirmFree(f, rc.Conc > 1, func() *ev.Finding { k2 := kk; return c05Check(&k2, b) })
@@ -457,7 +479,9 @@ func c05Run(c *ev.Ctx) {
 		})
 	}
 	c.Add("base_frames", int64(len(bases)))
-	c.Flag("exhaustive", true)
+	c.Add("cases_skipped_after_confirmed_hang", hungSkipped)
+	c.Add("slow_calls_over_30s", slowCalls)
+	c.Flag("exhaustive", hungSkipped == 0)
 }
 
 // ---- C06 ---------------------------------------------------------------------------------------
@@ -469,7 +493,7 @@ func c06Check(k *streamCase, full []byte, content []byte, legacy bool) *ev.Findi
 	if k.Read.WriteTo {
 		path = "WriteTo"
 	}
-	if res.panic != "" {
+	if res.panic != "" || res.err == errSkippedHung {
 		return nil // C07
 	}
 	if res.err == errBlocked {
@@ -583,7 +607,8 @@ func c06Run(c *ev.Ctx) {
 		}
 	}
 	c.Add("base_frames", int64(len(bases)))
-	c.Flag("exhaustive", true)
+	c.Add("cases_skipped_after_confirmed_hang", hungSkipped)
+	c.Flag("exhaustive", hungSkipped == 0)
 }
 
 // ---- C07 ---------------------------------------------------------------------------------------
@@ -594,6 +619,9 @@ func c07Check(k *streamCase, wantInvalid bool, skipCheck int, allocBound int64) 
 		runtime.ReadMemStats(&before)
 	}
 	res := decodeStream(k.bytes(), k.Read, 64<<20)
+	if res.err == errSkippedHung {
+		return nil
+	}
 	path := "Read"
 	if k.Read.WriteTo {
 		path = "WriteTo"
@@ -608,18 +636,19 @@ func c07Check(k *streamCase, wantInvalid bool, skipCheck int, allocBound int64) 
 		}
 		return mk(fmt.Sprintf("Reader panics: %s; %s conc>1=%v", cls, path, k.Read.Conc > 1), res.panic)
 	}
-	if res.err == errBlocked {
-		return mk(fmt.Sprintf("Reader blocks forever; %s conc>1=%v", path, k.Read.Conc > 1), "")
-	}
-	if res.err != nil && strings.Contains(res.err.Error(), "does not end") {
-		return mk(fmt.Sprintf("Reader does not terminate; %s conc>1=%v", path, k.Read.Conc > 1), "")
-	}
 	if allocBound > 0 {
+		// judged first: a Reader busy allocating gigabytes may also trip the watchdog
 		var after runtime.MemStats
 		runtime.ReadMemStats(&after)
 		if d := int64(after.TotalAlloc - before.TotalAlloc); d > allocBound {
 			return mk(fmt.Sprintf("Reader allocates beyond the declared block maximum; %s conc>1=%v", path, k.Read.Conc > 1), fmt.Sprintf("%d bytes allocated, bound %d", d, allocBound))
 		}
+	}
+	if res.err == errBlocked {
+		return mk(fmt.Sprintf("Reader blocks forever; %s conc>1=%v", path, k.Read.Conc > 1), "")
+	}
+	if res.err != nil && strings.Contains(res.err.Error(), "does not end") {
+		return mk(fmt.Sprintf("Reader does not terminate; %s conc>1=%v", path, k.Read.Conc > 1), "")
 	}
 	if wantInvalid {
 		if !errors.Is(res.err, lz4.ErrInvalidFrame) {
@@ -804,7 +833,7 @@ func c07Run(c *ev.Ctx) {
 				return
 			}
 			for _, rc := range []readCfg{cfgs[0], cfgs[2], cfgs[3], cfgs[4]} {
-				run(&streamCase{Fam: "T4", Base: b.Name, Mut: desc, Read: rc, stream: m}, false, -1, 0)
+				run(&streamCase{Fam: "T4", Base: b.Name, Mut: desc, Read: rc, stream: m}, false, -1, int64(2*rc.Conc+6)*(4<<20)+4<<20)
 			}
 		})
 	}
